@@ -14,14 +14,17 @@ Inductive intent :=
 | IComplete (n k okind arg : nat)
 | IEnd          (* source returns nil *)
 | IFail         (* source returns an error; supervisor restarts it after the pause *)
-| IWait.        (* wait for Execute to return, at most the shutdown timeout *)
+| IWait         (* wait for Execute to return, at most the shutdown timeout *)
+| ISignal.      (* SIGINT/SIGTERM: the main loop calls Shutdown() the next time it is at its select; while it is
+                   pending the source is neither ended nor failed by the scenario (the select would then have
+                   two ready cases and Go picks one at random) *)
 
 Inductive cmd :=
 | CSkip
 | CEmit (e : Z)
 | CRelease (n : nat) (it : item) (o : outcome)
 | CComplete (n : nat) (it : item) (o : outcome)
-| CEnd | CFail | CWait.
+| CEnd | CFail | CWait | CSignal.
 
 Fixpoint fresh_ids (next : Z) (m : nat) : list Z :=
   match m with O => [] | S m' => next :: fresh_ids (next + 1)%Z m' end.
@@ -54,7 +57,7 @@ Definition order_sensitive (nt : net) (T : nat) (s1 s2 : state) : bool :=
   | _ => true
   end.
 
-Record pstate := { st : state; next_id : Z; stopped : bool; bad : bool }.
+Record pstate := { st : state; next_id : Z; stopped : bool; bad : bool; sigp : bool (* a signal is pending *) }.
 
 Definition fuel0 : nat := 4000.
 
@@ -64,6 +67,20 @@ Fixpoint apply_all (nt : net) (T : nat) (s : state) (l : list action) : option s
   | [] => Some s
   | a :: r => match step nt T s a with Ok s' => apply_all nt T s' r | _ => None end
   end.
+
+(* a pending signal is handled as soon as the main loop is back at its select: Shutdown() stops the source.
+   Result: the state after that (or the same state) and whether the signal is still pending. *)
+Definition post_signal (nt : net) (T : nat) (sg : bool) (s2 : state) : option (state * bool) :=
+  if sg then
+    match mn s2, src s2 with
+    | MSelect, SRunning _ =>
+        match step nt T s2 SrcReturnNil with
+        | Ok s3 => match settle fuel0 nt T s3 with SOk s4 => Some (s4, false) | _ => None end
+        | _ => None
+        end
+    | _, _ => Some (s2, true)
+    end
+  else Some (s2, false).
 
 Definition play1 (nt : net) (T : nat) (p : pstate) (i : intent) : pstate * cmd * tree :=
   let s := st p in
@@ -76,9 +93,14 @@ Definition play1 (nt : net) (T : nat) (p : pstate) (i : intent) : pstate * cmd *
         match settle fuel0 nt T s1 with
         | SOk s2 =>
             if ambiguous_blocked s2 || ambiguous_discard nt s s2 rel || order_sensitive nt T s1 s2
-            then ({| st := s; next_id := next_id p; stopped := true; bad := false |}, CSkip, snapshot s)
-            else ({| st := s2; next_id := (next_id p + used)%Z; stopped := false; bad := false |}, c, snapshot s2)
-        | _ => ({| st := s; next_id := next_id p; stopped := true; bad := true |}, CSkip, snapshot s)
+            then ({| st := s; next_id := next_id p; stopped := true; bad := false; sigp := sigp p |}, CSkip, snapshot s)
+            else
+              (* a pending signal is handled as soon as the main loop is back at its select: Shutdown() stops the source *)
+              match post_signal nt T (sigp p) s2 with
+              | Some (s5, sg) => ({| st := s5; next_id := (next_id p + used)%Z; stopped := false; bad := false; sigp := sg |}, c, snapshot s5)
+              | None => ({| st := s; next_id := next_id p; stopped := true; bad := true; sigp := sigp p |}, CSkip, snapshot s)
+              end
+        | _ => ({| st := s; next_id := next_id p; stopped := true; bad := true; sigp := sigp p |}, CSkip, snapshot s)
         end
     end in
   match i with
@@ -115,8 +137,16 @@ Definition play1 (nt : net) (T : nat) (p : pstate) (i : intent) : pstate * cmd *
               attempt [Callback n' it o] (CComplete n' it o) (used_ids o) None
           end
       end
-  | IEnd => attempt [SrcReturnNil] CEnd 0%Z None
-  | IFail => attempt [SrcReturnErr; SrcRestart] CFail 0%Z None
+  | IEnd => if sigp p then skip else attempt [SrcReturnNil] CEnd 0%Z None
+  | ISignal =>
+      match src s, mn s with
+      | SRunning _, MSelect => attempt [SrcReturnNil] CSignal 0%Z None
+      | SRunning _, MDeliver _ _ =>
+          if sigp p then skip
+          else ({| st := s; next_id := next_id p; stopped := false; bad := false; sigp := true |}, CSignal, snapshot s)
+      | _, _ => skip
+      end
+  | IFail => if sigp p then skip else attempt [SrcReturnErr; SrcRestart] CFail 0%Z None
   | IWait =>
       match src s, mn s with
       | SClosed, MWait => attempt (repeat Tick T ++ [MainTimeout]) CWait 0%Z None
@@ -138,7 +168,7 @@ Fixpoint play (nt : net) (T : nat) (p : pstate) (l : list intent) : pstate * lis
 Definition play_from_init (nt : net) (T : nat) (l : list intent) : pstate * tree * list (cmd * tree) :=
   match settle fuel0 nt T (init nt) with
   | SOk s0 =>
-      let '(p, out) := play nt T {| st := s0; next_id := 1000%Z; stopped := false; bad := false |} l in
+      let '(p, out) := play nt T {| st := s0; next_id := 1000%Z; stopped := false; bad := false; sigp := false |} l in
       (p, snapshot s0, out)
-  | _ => ({| st := init nt; next_id := 1000%Z; stopped := true; bad := true |}, snapshot (init nt), [])
+  | _ => ({| st := init nt; next_id := 1000%Z; stopped := true; bad := true; sigp := false |}, snapshot (init nt), [])
   end.
